@@ -2,6 +2,7 @@ package ev
 
 import (
 	"bytes"
+	"encoding/json"
 	"fmt"
 	"os"
 	"os/exec"
@@ -11,8 +12,10 @@ import (
 )
 
 // Fork runs n worker copies of this binary (VERIF_SHARD=i/n, VERIF_SUB=<file>) in parallel and merges
-// their results. A worker that dies is a harness error unless onCrash is given, in which case
-// onCrash(shard, output) decides (used by harnesses where a crash of the code under test is a finding).
+// their results. A worker that dies is a harness error unless onCrash is given and recognises a crash
+// of the code under test (see CrashViolation). In that case the shard is resumed after the work item
+// that crashed, if the worker journalled a "resume" index (VERIF_RESUME is passed to the new worker);
+// results of the crashed partial run itself are lost (only the violation is kept).
 func (r *Run) Fork(n int, extraEnv []string, onCrash func(shard int, out []byte, journal string) bool) {
 	if n <= 0 {
 		n = runtime.NumCPU()
@@ -29,37 +32,52 @@ func (r *Run) Fork(n int, extraEnv []string, onCrash func(shard int, out []byte,
 			defer wg.Done()
 			out := filepath.Join(scratch, fmt.Sprintf("shard-%s-%d.json", r.ID, i))
 			journal := filepath.Join(scratch, fmt.Sprintf("journal-%s-%d.txt", r.ID, i))
-			os.Remove(out)
-			cmd := exec.Command(os.Args[0], os.Args[1:]...)
-			cmd.Env = append(os.Environ(), fmt.Sprintf("VERIF_SHARD=%d/%d", i, n), "VERIF_SUB="+out, "VERIF_JOURNAL="+journal)
-			cmd.Env = append(cmd.Env, extraEnv...)
-			var buf bytes.Buffer
-			cmd.Stdout, cmd.Stderr = &buf, &buf
-			err := cmd.Run()
-			mu.Lock()
-			defer mu.Unlock()
-			if err != nil {
-				if onCrash != nil && onCrash(i, buf.Bytes(), journal) {
-					if _, e := os.Stat(out); e == nil {
-						r.mu.Unlock()
-						r.Merge(out, "")
-						r.mu.Lock()
+			resume := 0
+			for attempt := 0; ; attempt++ {
+				os.Remove(out)
+				cmd := exec.Command(os.Args[0], os.Args[1:]...)
+				cmd.Env = append(os.Environ(), fmt.Sprintf("VERIF_SHARD=%d/%d", i, n), "VERIF_SUB="+out, "VERIF_JOURNAL="+journal, fmt.Sprintf("VERIF_RESUME=%d", resume))
+				cmd.Env = append(cmd.Env, extraEnv...)
+				var buf bytes.Buffer
+				cmd.Stdout, cmd.Stderr = &buf, &buf
+				err := cmd.Run()
+				if err == nil {
+					mu.Lock()
+					if buf.Len() > 0 && os.Getenv("VERIF_VERBOSE") != "" {
+						os.Stdout.Write(buf.Bytes())
 					}
+					r.Merge(out, "")
+					mu.Unlock()
 					return
 				}
-				tail := buf.Bytes()
-				if len(tail) > 3000 {
-					tail = tail[len(tail)-3000:]
+				mu.Lock()
+				handled := onCrash != nil && onCrash(i, buf.Bytes(), journal)
+				mu.Unlock()
+				if !handled {
+					tail := buf.Bytes()
+					if len(tail) > 3000 {
+						tail = tail[len(tail)-3000:]
+					}
+					Broken("worker %d/%d failed: %v\n%s", i, n, err, tail)
 				}
-				Broken("worker %d/%d failed: %v\n%s", i, n, err, tail)
+				var jr map[string]interface{}
+				if b, e := os.ReadFile(journal); e == nil {
+					json.Unmarshal(b, &jr)
+				}
+				next, ok := jr["resume"].(float64)
+				if !ok || int(next) <= resume || attempt > 300 {
+					return // no resume point: the rest of the shard stays unexplored (a cap was recorded)
+				}
+				resume = int(next)
 			}
-			if buf.Len() > 0 && os.Getenv("VERIF_VERBOSE") != "" {
-				os.Stdout.Write(buf.Bytes())
-			}
-			mu.Unlock()
-			r.Merge(out, "")
-			mu.Lock()
 		}(i)
 	}
 	wg.Wait()
+}
+
+// Resume returns the work-item index a restarted worker continues from.
+func Resume() int {
+	n := 0
+	fmt.Sscanf(os.Getenv("VERIF_RESUME"), "%d", &n)
+	return n
 }
